@@ -287,17 +287,20 @@ func runSidecarCount(c *Ctx) {
 			if ObjOf(info, StripConv(info, x)) != tc {
 				return "", false, false
 			}
-			call, ok := ast.Unparen(StripConv(info, y)).(*ast.CallExpr)
-			if !ok || len(call.Args) != 2 {
-				return "", false, false
+			for _, d := range append([]ast.Expr{y}, resolveExprs(g, y, 1)...) {
+				call, ok := ast.Unparen(StripConv(info, d)).(*ast.CallExpr)
+				if !ok || len(call.Args) != 2 {
+					continue
+				}
+				if h := p.CalleeInfo(info, call); h == nil || h.Name != "transfer.chunkTotal" {
+					continue
+				}
+				if ObjOf(info, StripConv(info, call.Args[0])) != fs || ObjOf(info, StripConv(info, call.Args[1])) != cs {
+					continue
+				}
+				return "count-agrees", be.Op == token.EQL, true
 			}
-			if h := p.CalleeInfo(info, call); h == nil || h.Name != "transfer.chunkTotal" {
-				return "", false, false
-			}
-			if ObjOf(info, StripConv(info, call.Args[0])) != fs || ObjOf(info, StripConv(info, call.Args[1])) != cs {
-				return "", false, false
-			}
-			return "count-agrees", be.Op == token.EQL, true
+			return "", false, false
 		}}}}
 		ref := NodeRef{b, len(b.Nodes) - 1}
 		c.Check(spec.Passed(f, ref, "count-agrees"), key, ret.Pos(), "a sidecar is returned only when its stored count equals chunkTotal(stored size, stored chunk size)",
